@@ -229,6 +229,152 @@ def check_dssr(chk) -> None:
     chk.expect(len(rets) == 1 and norm(rets[0].value) == "BaseInteractions(base_pairs, stackings, [], [], [])", "result-fields", pd_.where, "DSSR result = BaseInteractions(pairs, stackings, [], [], [])", "DSSR result fields changed", K(pd_, "result"))
 
 
+class EnumStub:
+    """Enum class stand-in for block evaluation: E[name] (KeyError), E.name, E(value) (ValueError), E.__members__."""
+
+    _folder_stub = True
+
+    def __init__(self, cls: str, members: Dict[str, Any]):
+        object.__setattr__(self, "_cls", cls)
+        object.__setattr__(self, "_members", {k: (cls, k) for k in members})
+        object.__setattr__(self, "_by_value", {v: (cls, k) for k, v in members.items()})
+        object.__setattr__(self, "__members__", self._members)
+        for k in members:
+            object.__setattr__(self, k, (cls, k))
+
+    def __getitem__(self, k):
+        return self._members[k]
+
+    def __call__(self, v):
+        if v not in self._by_value:
+            raise ValueError(f"{v!r} is not a valid {self._cls}")
+        return self._by_value[v]
+
+    def __contains__(self, x):
+        return x in self._members.values()
+
+    def __iter__(self):
+        return iter(self._members.values())
+
+
+def enum_stubs(repo) -> Dict[str, EnumStub]:
+    out = {}
+    for en in ("LeontisWesthof", "BR", "BPh", "StackingTopology", "Saenger"):
+        mem = {k: Folder(repo, "common").try_fold(v) for k, v in repo.enum_members("common", en).items()}
+        out[en] = EnumStub(en, mem)
+    return out
+
+
+def check_normaliser_eval(chk) -> None:
+    """unify_classification evaluated on one label per class of the label language (prefix n / suffix a / digit+BR / digit+BPh / sXY / c|t + two edges
+    in either case / junk): category and class must be the ones the statement gives."""
+    from sa.blockeval import BlockEval, Unknown
+
+    repo = chk.repo
+    uc = repo.func(M, "unify_classification")
+    p = uc.node.args.args[0].arg
+    stubs = enum_stubs(repo)
+    lw = lambda n: ("base-pair", ("LeontisWesthof", n))
+    cases = {
+        "cWW": lw("cWW"), "tHS": lw("tHS"), "cww": lw("cWW"), "tSs": lw("tSS"), "THs": lw("tHS"), "ncWW": lw("cWW"), "cWWa": lw("cWW"), "ncWWa": lw("cWW"), "ntsh": lw("tSH"), "tWHa": lw("tWH"),
+        "s33": ("stacking", ("StackingTopology", STACK_LABELS["s33"])), "s55": ("stacking", ("StackingTopology", STACK_LABELS["s55"])), "s35": ("stacking", ("StackingTopology", STACK_LABELS["s35"])), "s53": ("stacking", ("StackingTopology", STACK_LABELS["s53"])),
+        "ns35": ("stacking", ("StackingTopology", STACK_LABELS["s35"])), "s53a": ("stacking", ("StackingTopology", STACK_LABELS["s53"])),
+        "0BR": ("base-ribose", ("BR", "_0")), "7BR": ("base-ribose", ("BR", "_7")), "n3BR": ("base-ribose", ("BR", "_3")), "9BR": ("base-ribose", ("BR", "_9")),
+        "0BPh": ("base-phosphate", ("BPh", "_0")), "9BPh": ("base-phosphate", ("BPh", "_9")), "n4BPh": ("base-phosphate", ("BPh", "_4")), "6BPha": ("base-phosphate", ("BPh", "_6")),
+        "xyz": ("other", None), "": ("other", None), "cXY": ("other", None), "s36": ("other", None), "perp": ("other", None), "cW": ("other", None), "n": ("other", None), "BPh": ("other", None), "tWWW": ("other", None),
+    }
+    bad = {}
+    try:
+        for label, want in cases.items():
+            ev = BlockEval(repo, M, dict(stubs, **{p: label}))
+            kind, val = ev.run(uc.node.body)
+            if kind != "return" or val != want:
+                bad[label] = (kind, val)
+        chk.expect(
+            not bad,
+            "normaliser-eval",
+            uc.where,
+            f"{len(cases)} labels, one per class of the label language (n-prefix, a-suffix, case of c/t and edges, digit+BR/BPh, sXY, junk), get the category and class of the statement",
+            "labels are classified wrongly: " + "; ".join(f"`{k}` -> {v[1] if v[0] == 'return' else v[0]} (expected {cases[k]})" for k, v in list(bad.items())[:4]),
+            K(uc, "normaliser-eval"),
+            expected={k: str(cases[k]) for k in list(bad)[:8]},
+            found={k: str(v) for k, v in list(bad.items())[:8]},
+        )
+    except Unknown as ex:
+        chk.error("normaliser-eval", uc.where, f"unify_classification not evaluable: {ex}")
+    except Exception as ex:
+        chk.violation("normaliser-eval", uc.where, f"unify_classification raises {type(ex).__name__} ({ex}) for one of the label classes: the line (or the whole import) is lost", K(uc, "normaliser-raises"))
+
+
+def check_dssr_eval(chk) -> None:
+    """The pair and stack loops of parse_dssr_output evaluated on documents covering the cases resolved / unresolved member, known / unknown class."""
+    from sa.blockeval import BlockEval, Unknown
+
+    repo = chk.repo
+    pd_ = repo.func(M, "parse_dssr_output")
+    stubs = enum_stubs(repo)
+    known = {"A1": "rA1", "A2": "rA2", "A3": "rA3", "A4": "rA4", "A5": "rA5"}
+
+    def resolve(structure, name):
+        if name is None:
+            return None
+        return known.get(name.split(":")[-1])
+
+    def match_lw(x):
+        return ("LeontisWesthof", x) if x in stubs["LeontisWesthof"].__members__ else None
+
+    env0 = dict(stubs, structure3d="S", match_dssr_name_to_residue=resolve, match_dssr_lw=match_lw, BasePair=lambda *a: ("BasePair",) + a, Stacking=lambda *a: ("Stacking",) + a, BaseInteractions=lambda *a: ("BaseInteractions",) + a)
+    docs = [
+        ({"pairs": [{"nt1": "A1", "nt2": "A2", "LW": "cWW"}, {"nt1": "A1", "nt2": "Z9", "LW": "cWW"}, {"nt1": "A3", "nt2": "A4", "LW": "c.W"}, {"nt2": "A4", "LW": "tHS"}, {"nt1": "1:A5", "nt2": "A4", "LW": "tHS"}], "stacks": []},
+         [("BasePair", "rA1", "rA2", ("LeontisWesthof", "cWW"), None), ("BasePair", "rA5", "rA4", ("LeontisWesthof", "tHS"), None)], []),
+        ({"stacks": [{"nts_long": "A1,A2,A3"}]}, [], [("Stacking", "rA1", "rA2", None), ("Stacking", "rA2", "rA3", None)]),
+        ({"stacks": [{"nts_long": "A1,Z9,A3"}]}, [], []),
+        ({"stacks": [{"nts_long": "A1,A2,Z9,A4,A5"}, {"nts_long": "A3"}, {}]}, [], [("Stacking", "rA1", "rA2", None), ("Stacking", "rA4", "rA5", None)]),
+        ({}, [], []),
+    ]
+    loops = [l for l in pd_.node.body if isinstance(l, ast.For)]
+    first = pd_.node.body.index(loops[0]) if loops else None
+    if first is None:
+        chk.error("dssr-eval", pd_.where, "pair/stack loops of parse_dssr_output not found")
+        return
+    # the statements that initialise the result lists come before the first loop; the document is bound to the name the loops read
+    docname = None
+    for c2 in ast.walk(loops[0].iter):
+        if isinstance(c2, ast.Call) and isinstance(c2.func, ast.Attribute) and c2.func.attr == "get" and isinstance(c2.func.value, ast.Name):
+            docname = c2.func.value.id
+    inits = [s2 for s2 in pd_.node.body[:first] if isinstance(s2, (ast.Assign, ast.AnnAssign)) and isinstance(getattr(s2, "value", None), (ast.List,))]
+    if docname is None:
+        chk.error("dssr-eval", pd_.where, "name of the parsed document not found")
+        return
+    bad = []
+    try:
+        for doc, want_pairs, want_stacks in docs:
+            ev = BlockEval(repo, M, dict(env0, **{docname: doc}))
+            kind, val = ev.run(inits + pd_.node.body[first:])
+            if kind != "return" or not (isinstance(val, tuple) and val[:1] == ("BaseInteractions",) and len(val) == 6):
+                bad.append((doc, f"result {kind}: {val!r}"[:120]))
+                continue
+            if list(val[1]) != want_pairs:
+                bad.append((doc, f"pairs {list(val[1])!r}, expected {want_pairs!r}"))
+            if list(val[2]) != want_stacks:
+                bad.append((doc, f"stackings {list(val[2])!r}, expected {want_stacks!r}"))
+            if list(val[3]) or list(val[4]) or list(val[5]):
+                bad.append((doc, "other lists are not empty"))
+        chk.expect(
+            not bad,
+            "dssr-eval",
+            pd_.where,
+            f"{len(docs)} documents: a pair is kept iff both residues and the class resolve; consecutive members of a stack are paired iff both resolve (an unresolved member breaks the chain, it is not skipped over)",
+            "DSSR import differs from the statement: " + "; ".join(f"{str(d)[:70]} gives {m}" for d, m in bad[:2]),
+            K(pd_, "dssr-eval"),
+            found=[m for d, m in bad[:4]],
+        )
+    except Unknown as ex:
+        chk.error("dssr-eval", pd_.where, f"parse_dssr_output loops not evaluable: {ex}")
+    except Exception as ex:
+        chk.violation("dssr-eval", pd_.where, f"parse_dssr_output raises {type(ex).__name__} ({ex}) on one of the documents", K(pd_, "dssr-raises"))
+
+
 def run(chk) -> None:
     chk.explanation = (
         "Static rules on adapter.py: a small may-raise analysis (int()/float() of strings, constant subscripts of split() results without an exact length guard, Enum subscripts, explicit raises, "
@@ -238,9 +384,13 @@ def run(chk) -> None:
     )
     chk.trusted = ["CPython ast", "orjson.loads / file I/O errors are outside the statement", "stacking label table as coded (what FR3D's four labels denote is not decided)"]
     chk.assumptions = ["the label language as a set of strings is not enumerated (that would be execution); only the structure of the normaliser is decided"]
+    chk.robust |= {"fr3d-total", "dispatch-exhaustive", "normaliser-eval", "dssr-eval", "guard-exact", "normaliser-self-update"}
+    chk.superseded.update({"normaliser-steps": "normaliser-eval", "normaliser-backbone": "normaliser-eval", "normaliser-stacking": "normaliser-eval", "normaliser-lw": "normaliser-eval", "dssr-pairs": "dssr-eval", "dssr-stacks": "dssr-eval"})
     check_fr3d(chk)
     check_normaliser(chk)
+    check_normaliser_eval(chk)
     check_dssr(chk)
+    check_dssr_eval(chk)
     for rule, n in (("fr3d-total", 4), ("dispatch-branch", 5), ("dispatch-exhaustive", 1), ("guard-exact", 1), ("dssr-stacks", 1)):
         chk.floor(rule, n)
 
